@@ -25,6 +25,7 @@ partial def exprOfJson (j : Json) : Except String Expr := do
     | [Json.str "in", x, items] => return .isIn (← exprOfJson x) (← listOfJson jvalOfJson items)
     | [Json.str "isnone", x] => return .isNone (← exprOfJson x)
     | [Json.str "isnan", x] => return .npIsnan (← exprOfJson x)
+    | [Json.str "isscalar", x] => return .npIsscalar (← exprOfJson x)
     | _ => throw s!"bad expr {j.compress.take 80}"
   | _ => throw s!"bad expr {j.compress.take 80}"
 
@@ -115,6 +116,11 @@ def cstateOfJson (j : Json) : Except String CState := do
   let rightDispMap ← boolOfJson (fieldD j "right_disp_map" (Json.bool false))
   let step ← jvalOfJson (fieldD j "step" (intToJson 1))
   return { pipelineCfg, rightDispMap, step }
+
+def flagsOfJson (j : Json) : Except String MachineFlags := do
+  let bandWhole ← boolOfJson (fieldD j "bandWhole" (Json.bool false))
+  let resetPipelineCfg ← boolOfJson (fieldD j "resetPipelineCfg" (Json.bool false))
+  return { bandWhole, resetPipelineCfg }
 
 def cstateToJson (m : CState) : Json :=
   mkObj [("pipeline_cfg", jvalToJson (.obj m.pipelineCfg)), ("right_disp_map", Json.bool m.rightDispMap),
